@@ -483,4 +483,209 @@ def rule_f(ctx: Ctx) -> None:
                 '(zip(strict=True)); each hit must sit inside a handler of ValueError.')
 
 
-RULES = [rule_a, rule_b, rule_c, rule_d, rule_e, rule_f]
+def _len_fact(atom: str, var_names: set, k: int):
+    """(value the atom must have, ) for which the atom establishes len(V) > k; None when the atom says nothing about it."""
+    try:
+        e = ast.parse(atom, mode='eval').body
+    except SyntaxError:
+        return None
+    if text(e) in var_names:
+        return True                       # truthiness of the sequence: non-empty
+    if not (isinstance(e, ast.Compare) and len(e.ops) == 1):
+        return None
+    l, r, op = e.left, e.comparators[0], e.ops[0]
+    def is_len(x):
+        return isinstance(x, ast.Call) and text(x.func) == 'len' and len(x.args) == 1 and text(x.args[0]) in var_names
+    def const(x):
+        return x.value if isinstance(x, ast.Constant) and isinstance(x.value, int) else None
+    if is_len(r) and const(l) is not None:     # mirror: c OP len(V)
+        l, r = r, l
+        op = {ast.Lt: ast.Gt, ast.Gt: ast.Lt, ast.LtE: ast.GtE, ast.GtE: ast.LtE}.get(type(op), type(op))()
+    if not (is_len(l) and const(r) is not None):
+        return None
+    c = const(r)
+    if isinstance(op, ast.Eq):
+        return True if c > k else (False if c == 0 and k == 0 else None)
+    if isinstance(op, ast.NotEq):
+        return False if c > k else (True if c == 0 and k == 0 else None)
+    if isinstance(op, ast.Gt):
+        return True if c >= k else None
+    if isinstance(op, ast.GtE):
+        return True if c > k else None
+    if isinstance(op, ast.Lt):
+        return False if c > k else None        # not (len < c)  ->  len >= c
+    if isinstance(op, ast.LtE):
+        return False if c >= k else None
+    return None
+
+
+def rule_g(ctx: Ctx) -> None:
+    """The code that builds the report of an error must not fail itself: in the validation-error classes a constant-index
+    subscript `V[k]` is reached only where len(V) > k is established - by a test on the way (truth table of the guarding tests, for V
+    or for the collection V was copied from), or by a literal definition that is only appended to."""
+    rule = 'C11.g'
+    from .common import atom_forces, bool_atoms
+    n = 0
+    for f in ctx.idx.iter_functions('validators.exceptions'):
+        if isinstance(f.node, ast.Lambda):
+            continue
+        subs = [x for x in walk_no_nested(f.node) if isinstance(x, ast.Subscript) and isinstance(x.ctx, ast.Load) and isinstance(x.slice, ast.Constant)
+                and isinstance(x.slice.value, int) and isinstance(x.value, ast.Name)]
+        if not subs:
+            continue
+        ctx.analysed(f.qualname)
+        g = cfg_of(ctx, f)
+        rd = g.reaching_defs(kinds='nTF')
+        for x in subs:
+            v, k = x.value.id, x.slice.value
+            if k < 0:
+                k = -k - 1
+            own = g.owners(x)
+            if not own:
+                continue
+            owner = own[0]
+            n += 1
+            names = {v}
+            defs = rd[owner].get(v, set())
+            literal = False
+            for d in defs:
+                if d.kind == 'stmt' and isinstance(d.ast, (ast.Assign, ast.AnnAssign)) and d.ast.value is not None:
+                    val = d.ast.value
+                    if isinstance(val, ast.Call) and text(val.func) in ('tuple', 'list', 'sorted') and len(val.args) == 1 and len(defs) == 1:
+                        names.add(text(val.args[0]))
+                    if isinstance(val, (ast.List, ast.Tuple)) and len(val.elts) > k and not any(isinstance(e, ast.Starred) for e in val.elts) and len(defs) == 1:
+                        shrink = [c for c in calls(f.node) if isinstance(c.func, ast.Attribute) and text(c.func.value) == v
+                                  and c.func.attr in ('pop', 'clear', 'remove')] + [y for y in ast.walk(f.node) if isinstance(y, ast.Delete) and v in text(y)]
+                        literal = not shrink
+            # conditional expression: V[k] in the orelse/body of an IfExp guarded by its test
+            est = literal
+            why = 'literal definition that only grows' if literal else ''
+            par = None
+            for y in ast.walk(f.node):
+                if isinstance(y, ast.IfExp) and (any(z is x for z in ast.walk(y.body)) or any(z is x for z in ast.walk(y.orelse))):
+                    par = y
+            tests = [(t, lab) for t, lab in guards(ctx, f, owner)]
+            if par is not None:
+                tests.append((text(par.test), 'T' if any(z is x for z in ast.walk(par.body)) else 'F'))
+            for t, lab in tests:
+                if est:
+                    break
+                try:
+                    te = ast.parse(t, mode='eval').body
+                except SyntaxError:
+                    continue
+                for a in bool_atoms(te):
+                    need = _len_fact(a, names, k)
+                    if need is None:
+                        continue
+                    # on this edge the atom must have the value `need`: whenever it has the other value the test goes the other way
+                    if atom_forces(te, a, not need, lab != 'T'):
+                        est, why = True, f'`{t[:50]}` is {lab == "T"}'
+                        break
+                    # special case: F edge of `len(V) > 1` after `not V` was excluded etc. is not enough by itself
+            ctx.ob(rule, f'{f.qualname.split(".", 2)[-1]}: `{text(x)}` (line {x.lineno}) is reached only with len({v}) > {k}', f.loc(x), est,
+                   '' if est else f'nothing on the way establishes that `{v}` has {k + 1} element(s): an empty `{sorted(names - {v})[0] if names - {v} else v}` makes the construction of the '
+                   'error report raise IndexError out of is_valid()/iter_errors()/lax decoding (e.g. a strict wildcard with notNamespace or namespace="" among the expected particles)',
+                   key=f'{f.qualname}|index|{text(x)}|{why[:20] if not est else "ok"}' if False else f'{f.qualname}|index|{text(x)}')
+    ctx.floor(rule, 'constant-index subscripts in the validation-error classes', n, 5)
+    ctx.explain('C11.g: every `V[k]` with a constant k in xmlschema/validators/exceptions.py needs len(V) > k established by a dominating length test (atoms len(V) OP c, truthiness; '
+                'V or the collection it was copied from) or by a literal definition that is never shrunk.')
+
+
+# what an XML parser driven over arbitrary bytes raises besides its syntax error (reviewed from the pyexpat / codecs documentation, not derivable from the
+# repository): an XML declaration naming an unknown or non-text codec -> LookupError; a multi-byte or stateful codec, a lone surrogate in a str source,
+# a codec that fails on the first bytes -> ValueError / UnicodeError (a ValueError)
+PARSER_RAISES = {'etree': ('SyntaxError', 'LookupError', 'ValueError', 'UnicodeError'),
+                 'sax': ('SAXParseException', 'LookupError', 'ValueError', 'UnicodeError')}
+
+
+def rule_h(ctx: Ctx) -> None:
+    """Every place that drives an XML parser over the source converts what the parser raises into a library error."""
+    rule = 'C11.h'
+    n = 0
+    for f in ctx.idx.iter_functions('resources'):
+        if isinstance(f.node, ast.Lambda):
+            continue
+        parents = None
+        for c in calls(f.node):
+            d = text(c.func)
+            kind = 'sax' if d == 'pulldom.parse' else 'etree' if d in ('self._iterparse', 'iterparse', 'ElementTree.iterparse') else None
+            if kind is None:
+                continue
+            # the parser runs while the returned iterator is consumed: the site is the loop that iterates it
+            if parents is None:
+                parents = enclosing_map(f.node)
+            loop = c
+            while loop is not None and not isinstance(loop, (ast.For, ast.comprehension)):
+                loop = parents.get(id(loop))
+            if not isinstance(loop, ast.For):
+                continue
+            n += 1
+            hs = site_handlers(f, loop, parents)
+            names = handler_classes(ctx, f, hs)
+            for exc in PARSER_RAISES[kind]:
+                caught = covers(ctx, f, names, exc) or (exc == 'SAXParseException' and 'SAXParseException' in names)
+                conv = [h for h in hs if (h.type is None or exc in {text(e).split('.')[-1] for e in (h.type.elts if isinstance(h.type, ast.Tuple) else [h.type])}
+                                          or covers(ctx, f, handler_classes(ctx, f, [h]), exc))]
+                raises_lib = bool(conv) and all(any(isinstance(y, ast.Raise) and y.exc is not None and text(y.exc).startswith(('XMLResource', 'XMLSchema'))
+                                                    for y in ast.walk(h)) for h in conv[:1])
+                ok = caught and raises_lib
+                ctx.ob(rule, f'{f.qualname.split(".", 2)[-1]}: `{d}(…)` - {exc} raised by the parser is converted into a library error', f.loc(loop), ok,
+                       '' if ok else f'{exc} escapes from the parser loop: e.g. <?xml version="1.0" encoding="bogus"?> (LookupError), encoding="utf-7" (ValueError) or a '
+                       'lone surrogate in a str source (UnicodeEncodeError) leave XMLResource()/is_valid()/iter_errors() as a built-in exception',
+                       key=f'{f.qualname}|parser|{d}|{exc}')
+    ctx.floor(rule, 'loops driving an XML parser', n, 4)
+    ctx.trusted.append('raise-set of pyexpat on encoding problems: LookupError, ValueError/UnicodeError (reviewed table PARSER_RAISES)')
+    ctx.explain('C11.h: handler coverage (exception hierarchy) of the loops that iterate ElementTree.iterparse / pulldom.parse over the reviewed raise-set of the parser; the '
+                'covering handler raises a library error.')
+
+
+# what the evaluation of a user-written XPath expression over instance data raises: the elementpath hierarchy (ElementPathError and its subclasses, which also
+# derive from the matching built-ins) and - reviewed, the library converts operands with float() - the built-in ArithmeticError family (OverflowError)
+XPATH_RAISES = ('ElementPathError', 'ElementPathZeroDivisionError', 'OverflowError')
+XPATH_EVAL = ('evaluate', 'select', 'boolean_value')
+XPATH_SITES = {
+    'xmlschema.validators.elements.XsdAlternative.test': 'type alternative: a dynamic error makes the test false',
+    'xmlschema.validators.assertions.XsdAssert.__call__': 'xs:assert: a dynamic error is a validation error',
+    'xmlschema.validators.facets.XsdAssertionFacet.__call__': 'xs:assertion facet: a dynamic error is a validation error',
+}
+
+
+def rule_i(ctx: Ctx) -> None:
+    """Sibling sites that evaluate a schema author's XPath expression on instance data: whatever the evaluation raises ends as `false` / as a
+    validation error, never as a foreign exception out of iter_errors()."""
+    rule = 'C11.i'
+    n = 0
+    for q, why in XPATH_SITES.items():
+        f = ctx.idx.func(q)
+        ctx.analysed(q)
+        parents = enclosing_map(f.node)
+        sites = [c for c in calls(f.node) if isinstance(c.func, ast.Attribute) and c.func.attr in XPATH_EVAL and text(c.func.value) == 'self.token']
+        if not sites:
+            raise AnalysisError(f'{rule}: no evaluation of self.token in {q}')
+        for c in sites:
+            n += 1
+            hs = site_handlers(f, c, parents)
+            # the statement containing the call may be the direct child of the try body
+            names = handler_classes(ctx, f, hs)
+            for exc in XPATH_RAISES:
+                chain = builtin_exc_chain(exc) | ({'ElementPathError'} if exc.startswith('ElementPath') else set()) | \
+                    ({'ZeroDivisionError', 'ArithmeticError', 'Exception', 'BaseException'} if exc == 'ElementPathZeroDivisionError' else set())
+                ok = bool(chain & names)
+                ctx.ob(rule, f'{q.split(".", 2)[-1]}: {exc} raised by `{text(c)[:40]}` is handled ({why})', f.loc(c), ok,
+                       '' if ok else f'no handler for {exc} around the evaluation: e.g. test="(10 idiv xs:integer(@n)) = 1" with n="0" (division by zero) or a 400-digit n '
+                       '(OverflowError in the float conversion) leaves iter_errors()/is_valid() as a foreign exception', key=f'{q}|xpath|{c.func.attr}|{exc}')
+    ctx.floor(rule, 'XPath evaluation sites', n, 4)
+    # no other validator evaluates a token without being listed
+    for f in ctx.idx.iter_functions('validators'):
+        if isinstance(f.node, ast.Lambda) or f.qualname in XPATH_SITES:
+            continue
+        for c in calls(f.node):
+            if isinstance(c.func, ast.Attribute) and c.func.attr in ('evaluate', 'boolean_value') and 'token' in text(c.func.value):
+                ctx.ob(rule, f'{f.qualname.split(".", 2)[-1]}: `{text(c)[:50]}` is a reviewed XPath evaluation site', f.loc(c), False,
+                       'XPath evaluation outside the reviewed sites', key=f'{f.qualname}|xpath-unlisted')
+    ctx.trusted.append('raise-set of elementpath evaluation: ElementPathError subclasses and built-in OverflowError (reviewed table XPATH_RAISES)')
+    ctx.explain('C11.i: handler coverage of the three sites that evaluate schema XPath tests on instance data, over the reviewed raise-set.')
+
+
+RULES = [rule_a, rule_b, rule_c, rule_d, rule_e, rule_f, rule_g, rule_h, rule_i]
